@@ -323,7 +323,7 @@ def load_known(pid):
 
 
 def write_replay(pid, failure):
-    d = os.path.join(VERIF, "replays", pid)
+    d = os.path.join(os.environ.get("VERIF_REPLAY_DIR") or os.path.join(VERIF, "replays"), pid)
     os.makedirs(d, exist_ok=True)
     body = {"property": pid, "key": failure.key, "detail": failure.detail, "case": jsonable(failure.case)}
     name = "%016x.json" % fp(body["case"])
@@ -357,7 +357,8 @@ def write_evidence(mod, ctx, violations):
         "wall_s": round(time.time() - ctx.t0, 2),
         "violations": violations,
     }
-    d = os.path.join(VERIF, "evidence")
+    # sensitivity runs against mutated trees must not overwrite the evidence of the real tree
+    d = os.environ.get("VERIF_EVIDENCE_DIR") or os.path.join(VERIF, "evidence")
     os.makedirs(d, exist_ok=True)
     with open(os.path.join(d, mod.PID + ".json"), "w") as fh:
         json.dump(doc, fh, indent=1, default=repr)
